@@ -1,4 +1,4 @@
-"""C08: delayed (after) transitions - async engine under virtual time.
+"""C08 / C09 / C14 on the scheduling layer - async engine under virtual time.
 
 spec/SCSched.tla puts virtual time, timers, slow (suspending) actions and stop() on top of the core
 step semantics at the granularity of a deterministic driver; TLC explores every placement of external
@@ -34,8 +34,9 @@ def unit(args: dict) -> dict:
                            "errors": [], "nontrivial": 0, "samples": [], "n_machines": len(specs), "trace_steps": 0}
     try:
         built = pipeline.build_all(specs)
+        prop = args.get("prop", "C08")
         res, edges = sched.model_check_sched(built, os.path.join(wd, "mc"), maxnow=args["maxnow"], waits=args["waits"],
-                                             depth=args["depth"], props=("C08",), workers=args.get("tlc_workers", 3))
+                                             depth=args["depth"], props=(prop,), workers=args.get("tlc_workers", 3))
         out["states"], out["transitions"], out["edges"] = res.distinct_states, res.states_generated, len(edges)
         if not res.finished or res.returncode != 0:
             out["errors"].append(f"TLC rc={res.returncode} " + "; ".join(res.errors[:3]))
@@ -54,8 +55,8 @@ def unit(args: dict) -> dict:
                 out["nontrivial"] += 1
             w = sched.compare(e, post, log)
             if w is None:
-                if e.prop.get("C08"):
-                    v = core_check._viol("C08", e.prop["C08"], "async", b, steps, e.out, "edge", post, e.frm)
+                if e.prop.get(prop):
+                    v = core_check._viol(prop, e.prop[prop], "async", b, steps, e.out, "edge", post, e.frm)
                     out["violations"].append(v)
             else:
                 out["divergent"] += 1
@@ -76,10 +77,10 @@ def unit(args: dict) -> dict:
             vres = tla.run_tlc("TraceSched", cfg, os.path.join(wd, "tr"), workers=2)
             for v in vres.json_lines:
                 out["trace_steps"] += 1
-                if v.get("C08"):
+                if v.get(prop):
                     b, steps, r = tctx[v["ti"] - 1]
                     if v["l"] == len(steps):        # the step under test (the path was judged by its own edges)
-                        out["violations"].append(core_check._viol("C08", sorted(v["C08"]), "async", b, steps, r[-1][1],
+                        out["violations"].append(core_check._viol(prop, sorted(v[prop]), "async", b, steps, r[-1][1],
                                                                   "trace", r[-1][0], r[-2][0] if len(r) > 1 else None))
             if vres.returncode != 0 or not vres.json_lines:
                 out["errors"].append("trace validation failed: " + "; ".join(vres.errors[:3]))
@@ -91,12 +92,23 @@ def unit(args: dict) -> dict:
     return out
 
 
+RULES = {
+    "C09": ("family V: one invocation with/without onError, two invocations on one state, invocation beside an after timer, "
+            "invocations on a parent and its child, onDone that re-enters the invoking state; services are driver-controlled "
+            "futures resolved or rejected at any driver step relative to sends, waits, slow (100 ms) actions, re-entry and stop; "
+            "TLC explores driver steps up to the depth and horizon of this run; every edge replayed under virtual time"),
+}
+
+
 def run(prop: str, tier: str, seed: int) -> int:
     t0 = time.time()
     q = tier == "quick"
-    specs = gen.family_X(seed, 14 if q else 140)
+    if prop == "C09":
+        specs = gen.family_V(seed, 12 if q else 120)
+    else:
+        specs = gen.family_X(seed, 14 if q else 140)
     units = [{"specs": [sp], "maxnow": 200 if q else 320, "waits": (30,) if q else (20, 45), "depth": 7 if q else 9,
-              "tlc_workers": 2} for sp in specs]
+              "tlc_workers": 2, "prop": prop} for sp in specs]
     if NPROC > 1:
         import concurrent.futures as cf
 
@@ -124,7 +136,7 @@ def run(prop: str, tier: str, seed: int) -> int:
     cov["distinct_nontrivial"] = nontrivial
     cov["exhaustive"] = False
     cov["divergences"] = cov["divergent_edges"]
-    cov["rule"] = ("family X: one/two timers per state (equal and different delays, guarded candidate lists under one delay), periodic "
+    cov["rule"] = RULES.get(prop) or ("family X: one/two timers per state (equal and different delays, guarded candidate lists under one delay), periodic "
                    "re-entering after, named delays, nested owner + child timers, timers in parallel regions; events RE (re-enter), GO/BACK "
                    "(leave/return), SLOW (100 ms suspending action), IN; driver steps start/send/wait/advance/stop explored by TLC up to the "
                    "depth and horizon in this run; every edge replayed under virtual time")
@@ -135,11 +147,27 @@ def run(prop: str, tier: str, seed: int) -> int:
     return report.finalize(prop, tier, seed, t0, violations=violations, coverage=cov, assumptions=ASSUMPTIONS, errors=errors)
 
 
+def _service_names(cfg) -> set:
+    out = set()
+
+    def walk(n):
+        inv = n.get("invoke")
+        for i in (inv if isinstance(inv, list) else [inv] if inv else []):
+            if isinstance(i, dict) and i.get("src"):
+                out.add(i["src"])
+        for c in (n.get("states") or {}).values():
+            walk(c)
+
+    walk(cfg)
+    return out
+
+
 def replay(prop: str, path: str) -> int:
     with open(path) as f:
         rec = json.load(f)
     spec = gen.Spec(rec["config"], rec.get("family", "replay"), rec.get("label", "replay"))
     spec.delays = {k: v for k, v in (rec.get("delays") or {}).items()}
+    spec.services = {k: "driver" for k in _service_names(rec["config"])}
     b = pipeline.Built(spec)
     r = sched.run_sched(b, rec["steps"])
     for (post, log), st in zip(r, rec["steps"]):
